@@ -630,6 +630,20 @@ func (e *Exec) callFunction(st *State, fn *ssa.Function, args []Value, bind []Va
 		e.stats.Stubs["noop:"+fn.Pkg.Pkg.Path()]++
 		return e.zeroResults(st, fn)
 	}
+	if fn.Pkg != nil && fn.Pkg.Pkg.Path() == "math" {
+		// floating point is not modelled: every result of package math is an opaque value of its type
+		e.stats.Stubs["opaque:math."+fn.Name()]++
+		sig := fn.Signature.Results()
+		rets := make([]Value, sig.Len())
+		for i := range rets {
+			if b, ok := sig.At(i).Type().Underlying().(*types.Basic); ok && b.Info()&types.IsFloat != 0 {
+				rets[i] = OpaqueV{"float"}
+			} else {
+				panic(unsupported("package math function with a non-float result: %s", fn.Name()))
+			}
+		}
+		return []Outcome{{st: st, rets: rets}}
+	}
 	if len(fn.Blocks) == 0 {
 		if in, ok := e.harnessAPI[fn.Name()]; ok && fn.Pkg != nil && strings.HasPrefix(fn.Name(), "v") {
 			switch fn.Name() {
